@@ -517,7 +517,7 @@ class BaseParser:
 
             result[name] = parsed
 
-            if field.dependencies:
+            if field.dependencies and field.name not in context.excluded_fields:
                 dependencies.update(
                     field.attr_dependencies if as_attname else field.dependencies
                 )
@@ -632,7 +632,7 @@ class BaseParser:
                 continue
 
             result[name] = parsed
-            if field.dependencies:
+            if field.dependencies and field.name not in context.excluded_fields:
                 dependencies.update(
                     field.attr_dependencies if as_attname else field.dependencies
                 )
